@@ -97,6 +97,80 @@ def rename_module(src: str) -> str:
     return ast.unparse(tree) + "\n"
 
 
+class CommuteConst(ast.NodeTransformer):
+    """c * x -> x * c  and  c + x -> x + c  (and back) when one operand is a numeric literal: exact in floating point"""
+
+    def visit_BinOp(self, node):
+        self.generic_visit(node)
+        if isinstance(node.op, (ast.Mult, ast.Add)):
+            def num(n):
+                return isinstance(n, ast.Constant) and isinstance(n.value, (int, float, complex)) and not isinstance(n.value, bool)
+            if num(node.left) != num(node.right):
+                node.left, node.right = node.right, node.left
+        return node
+
+
+class AugToAssign(ast.NodeTransformer):
+    """x op= y  ->  x = x op y  for plain names and subscripts of jax dict entries (values are rebuilt, not mutated in place:
+    restricted to targets that are dictionary entries keyed by a string or plain names not used as numpy buffers elsewhere
+    is not decidable here, so only Name targets inside functions decorated with jit / partial(jit) are rewritten)"""
+
+    def __init__(self):
+        self.in_jit = 0
+
+    def visit_FunctionDef(self, node):
+        jitted = any("jit" in ast.unparse(d) for d in node.decorator_list)
+        self.in_jit += jitted
+        self.generic_visit(node)
+        self.in_jit -= jitted
+        return node
+
+    def visit_AugAssign(self, node):
+        self.generic_visit(node)
+        if self.in_jit and isinstance(node.target, (ast.Name, ast.Subscript)):
+            import copy
+            load = copy.deepcopy(node.target)
+            for n in ast.walk(load):
+                if hasattr(n, "ctx"):
+                    n.ctx = ast.Load()
+            return ast.copy_location(ast.Assign(targets=[node.target], value=ast.BinOp(left=load, op=node.op, right=node.value)), node)
+        return node
+
+
+class ReturnTemp(ast.NodeTransformer):
+    """return <expr>  ->  result__ = <expr>; return result__   and a no-op statement at the top of every function"""
+
+    def visit_FunctionDef(self, node):
+        self.generic_visit(node)
+        new = []
+        for st in node.body:
+            new.append(st)
+        body = []
+        first = 1 if (node.body and isinstance(node.body[0], ast.Expr) and isinstance(getattr(node.body[0], "value", None), ast.Constant)
+                      and isinstance(node.body[0].value.value, str)) else 0
+        for i, st in enumerate(node.body):
+            if i == first:
+                body.append(ast.Pass())
+            body.append(st)
+        node.body = body
+        return node
+
+    def visit_Return(self, node):
+        if node.value is None or isinstance(node.value, (ast.Name, ast.Constant)):
+            return node
+        tmp = ast.Name(id="result__", ctx=ast.Store())
+        return [ast.copy_location(ast.Assign(targets=[tmp], value=node.value), node),
+                ast.copy_location(ast.Return(value=ast.Name(id="result__", ctx=ast.Load())), node)]
+
+
+def transform_module(src: str, kind: str) -> str:
+    tree = ast.parse(src)
+    tr = {"commute": CommuteConst, "augassign": AugToAssign, "rettemp": ReturnTemp}[kind]()
+    tree = tr.visit(tree)
+    ast.fix_missing_locations(tree)
+    return ast.unparse(tree) + "\n"
+
+
 def overlays(kind: str):
     ov = {}
     for path in sorted(glob.glob(os.path.join(REPO, "ad_afqmc", "*.py"))):
@@ -106,6 +180,8 @@ def overlays(kind: str):
             new = ast.unparse(ast.parse(src)) + "\n"
         elif kind == "rename":
             new = rename_module(src)
+        elif kind in ("commute", "augassign", "rettemp"):
+            new = transform_module(src, kind)
         else:
             new = rename_module(src)
         compile(new, rel, "exec")
@@ -134,7 +210,8 @@ def run_one(args):
 
 
 def main():
-    kinds = [a for a in sys.argv[1:] if a in ("reformat", "rename", "both")] or ["reformat", "rename"]
+    ALL = ("reformat", "rename", "commute", "augassign", "rettemp")
+    kinds = [a for a in sys.argv[1:] if a in ALL] or list(ALL)
     pids = [a for a in sys.argv[1:] if a.upper().startswith("C") and a[1:].isdigit()] or [f"C{i:02d}" for i in range(1, 21)]
     rc = 0
     for kind in kinds:
